@@ -991,7 +991,10 @@ class GSSNode:
 
     def create_link(self, parent):
         parent.head = self
-        existing_parent = self.parents.get(parent.root.id)
+        # Roots in the same state and frontier can still be at different
+        # positions under lexical ambiguity.
+        key = (parent.root.id, parent.root.position)
+        existing_parent = self.parents.get(key)
         created = False
         if existing_parent:
             existing_parent.merge(parent)
@@ -999,7 +1002,7 @@ class GSSNode:
                 h_print("Extending possibilities \tof head:", self, level=1)
                 h_print("  parent head:", parent.root, level=3)
         else:
-            self.parents[parent.root.id] = parent
+            self.parents[key] = parent
             created = True
             if self.debug:
                 h_print("Creating link \tfrom head:", self, level=1)
